@@ -494,10 +494,19 @@ impl Target {
     }
 
     pub(crate) fn is_grayscale_cleartype(&self) -> bool {
-        match self {
-            Self::Smooth { mode, .. } => matches!(mode, SmoothMode::Normal | SmoothMode::Light),
-            _ => false,
-        }
+        // FreeType computes this as
+        // `subpixel_hinting_lean && !((load_flags & FT_LOAD_TARGET_LCD) || (load_flags & FT_LOAD_TARGET_LCD_V))`
+        // and since FT_LOAD_TARGET_LCD (3 << 16) shares a bit with
+        // FT_LOAD_TARGET_LIGHT (1 << 16), the light target is excluded, leaving
+        // only the normal target.
+        // See `tt_loader_init` at <https://gitlab.freedesktop.org/freetype/freetype/-/blob/VER-2-12-1/src/truetype/ttgload.c#L2505>
+        matches!(
+            self,
+            Self::Smooth {
+                mode: SmoothMode::Normal,
+                ..
+            }
+        )
     }
 
     pub(crate) fn is_light(&self) -> bool {
